@@ -18,7 +18,9 @@ use core::mem::{align_of, size_of, MaybeUninit};
 #[repr(C, align(64))]
 pub struct Arena<const N: usize>(pub [MaybeUninit<u8>; N]);
 
-pub const ARENA: usize = 2048;
+/// small on purpose: CBMC prints the whole (nondeterministic) arena in every trace it emits, and kani-driver keeps
+/// those traces in memory (2 KiB arenas drove kani-driver itself to 40 GB)
+pub const ARENA: usize = 512;
 
 /// Moves `v` to offset `k * align_of::<T>()` inside a 64-aligned arena and returns it by reference
 /// (`k` concrete per query, enumerated by the driver: a symbolic offset makes the move of the whole vector
@@ -46,7 +48,13 @@ pub fn views_h<Tr: ?Sized + Trait, B: Backend, E: Elem + SatisfyTraits<Tr>>(p: c
     reset_all();
     let (v0, mut m) = build::<Tr, B, E>(p.cap, p.len, 0);
     let mut arena: Arena<ARENA> = Arena(unsafe { MaybeUninit::uninit().assume_init() });
-    let v = place(&mut arena, v0, p.idx2);
+    // inline (fixed-capacity) storage moves with the vector object: place it; heap storage does not
+    let mut md = core::mem::ManuallyDrop::new(v0);
+    let v: &mut AnyVec<Tr, B> = if B::RESIZABLE {
+        &mut *md
+    } else {
+        place(&mut arena, unsafe { core::mem::ManuallyDrop::take(&mut md) }, p.idx2)
+    };
     let (len, cap, size, al) = (m.len, v.capacity(), size_of::<E>(), align_of::<E>());
     let base = v.downcast_ref::<E>().unwrap().as_ptr() as usize;
     vp_assert!(base % al == 0, "VP: storage pointer is not aligned for the element type");
@@ -115,7 +123,12 @@ pub fn aligned_use_h<Tr: ?Sized + Trait, B: Backend, E: Elem + SatisfyTraits<Tr>
     reset_all();
     let (v0, mut m) = build::<Tr, B, E>(p.cap, p.len, 0);
     let mut arena: Arena<ARENA> = Arena(unsafe { MaybeUninit::uninit().assume_init() });
-    let v = place(&mut arena, v0, p.idx2);
+    let mut md = core::mem::ManuallyDrop::new(v0);
+    let v: &mut AnyVec<Tr, B> = if B::RESIZABLE {
+        &mut *md
+    } else {
+        place(&mut arena, unsafe { core::mem::ManuallyDrop::take(&mut md) }, p.idx2)
+    };
     if !B::RESIZABLE {
         assume(m.len < v.capacity());
     }
